@@ -161,8 +161,9 @@ static jv *child_states(void)
 {
   jv *a = j_mkarr();
   for (int h = 1; h < MAXH; h++) {
-    if (!Hpid[h]) continue;
     int p = child_of(h);
+    if (!Hpid[h]) continue;
+    if (p > 0 && !K->proc[p].execd && !K->proc[p].forkmode_child) continue;
     int st = p < 0 ? -1 : K->proc[p].state == PS_RUNNING ? 0 : K->proc[p].state == PS_ZOMBIE ? 1 : 2;
     jv *e = j_mkarr(); j_push(e, j_mkint(h)); j_push(e, j_mkint(st)); j_push(a, e);
   }
@@ -258,10 +259,10 @@ static jv *obs_key(const char *key, jv *call, long r, jv *extra)
         j_push(t, j_mkint(e->r == 0 ? handle_of_pid(e->a) : -1)); j_push(t, j_mkint(e->b)); j_push(t, j_mkint(e->t));
         j_push(a, t);
       } else if (e->kind == LK_WAITPID && key[0] == 'r' && e->r > 0) {
-        /* a child forked and reaped inside the same call (a failed start) is accounted for by "left" */
-        int same_call = 0;
-        for (int q = log_mark; q < i; q++) if (K->log[q].kind == LK_FORK && K->log[q].a == e->a) same_call = 1;
-        if (!same_call) j_push(a, j_mkint(handle_of_pid(e->a)));
+        /* a forked process that never became the requested program (start failed before exec) is an artefact
+           of the implementation, not a child at the contract level; it is accounted for by "left" */
+        int pi = sk_proc_by_pid(e->a);
+        if (pi > 0 && (K->proc[pi].execd || K->proc[pi].forkmode_child)) j_push(a, j_mkint(handle_of_pid(e->a)));
       } else if (e->kind == LK_MON && key[0] == 'm') {
         jv *t = j_mkarr(); j_push(t, j_mkint(e->a)); j_push(t, j_mkint(e->b)); j_push(a, t);
       } else if (e->kind == LK_PIPE || e->kind == LK_OPEN || e->kind == LK_FORK || e->kind == LK_DUP) created++;
